@@ -138,6 +138,8 @@ name_text = st.one_of(
     st.text(alphabet=st.characters(blacklist_categories=["Cs", "Cc"], blacklist_characters='"  \x85'), min_size=1, max_size=8),
     st.sampled_from(["A", "Bank 1", "#1", "a # b", "  lead", "trail  ", "O2", "ÄÖ", "x" * 30, "update", "r0", "HASH", "12", "-5", "$FF", "a\\b", "'q'",
                      "Storage Tank", "Pump (2)", "Sensor", "(x)", "Test", "STR", "abc)", "HASH(", "SH", "AAA", "S", "H)", "Heater (A)"]),
+    # pieces of IC10 syntax inside the name: label / comment / jump look-alikes
+    st.lists(st.sampled_from([":", "#", " ", "a", "main", "j ", "0", "ra", "end:", "# x", ".", "lbwhile1", "'"]), min_size=1, max_size=5).map("".join),
 )
 str_text = st.text(alphabet=st.characters(min_codepoint=32, max_codepoint=126, blacklist_characters='"'), min_size=1, max_size=6)
 _structs = None
